@@ -5,7 +5,7 @@
    the model. *)
 From Coq Require Import String List Bool ZArith NArith Arith QArith.
 From GV Require Import Base.Outcome Base.AMap Model.GState Model.Creation Model.Query
-     Model.Components Model.Cluster Model.Square Spec.ReachDef Spec.ClusterDef.
+     Model.Components Model.Cluster Model.Square Spec.ReachDef Spec.ClusterDef Spec.ClusterSpec.
 From GV Require Export Run.RunGraph.
 Import ListNotations.
 Close Scope Q_scope.
@@ -73,10 +73,19 @@ Definition map_is {V} (names : list Z) (m : list (Z * V)) (ok : Z -> V -> bool) 
 
 Definition unit_interval (q : Q) : bool := Qle_bool 0 q && Qle_bool q 1.
 
+(* hypothesis of C11_triangles_eq_def / C11_clustering_eq_def, and: the adjacency those
+   theorems speak about is the one of the edge list *)
+Definition chk_nbr (g : zstate) : bool :=
+  if directed (sp g) then true else
+  let names := get_all_node_names g in
+  nbr_ok_b zeqb g &&
+  forallb (fun u => forallb (fun v => Bool.eqb (nadj zeqb g u v) (sym_adjb g u v)) names) names.
+
 Definition chk_defs (g : zstate) : bool :=
   let names := get_all_node_names g in
   let ab := def_adjb g in
   let sb := sym_adjb g in
+  chk_nbr g &&
   (* undirected-only functions *)
   match triangles zeqb g None with
   | Ok m => map_is names m (fun v t => Nat.eqb t (tri zeqb names sb v))
